@@ -401,20 +401,26 @@ class Ctx:
         'qlat': ('GenQ', ['t_within', 't_calc']),
         'qfm': ('GenQ', ['t_fullmatch']),
         'qus': ('GenQ', ['t_upsample']),
+        'qbgmask': ('GenQ', ['t_bgsub_mask']),
+        'qbindef': ('GenQ', ['t_bin_defaults']),
         'k': ('GenK', ['t_com', 't_refine', 't_unravel', 't_evaluate']),
         'kcalls': ('GenK', ['t_calls_fast', 't_calls_full']),
         'kelev': ('GenK', ['t_elevation']),
         'klog': ('GenK', ['t_logscale']),
         'kcrop': ('GenK', ['t_crop']),
+        'kups': ('GenK', ['t_upsample_flag']),
         'vmatch': ('GenV', ['t_match_all']),
         'vidx': ('GenV', ['t_get_indices']),
         'vfit': ('GenV', ['t_weighted_optimize', 't_optimize']),
         'vaff': ('GenV', ['t_get_transformation']),
+        'vdefaults': ('GenV', ['t_corr_defaults']),
         'fm': ('GenFM', ['t_loop']),
         'fmtumble': ('GenFM', ['t_tumble']),
+        'fmpair': ('GenFM', ['t_do_match']),
         'ucorr': ('GenU', ['t_fast', 't_full']),
         'uint': ('GenU', ['t_integration']),
         'urefine': ('GenU', ['t_refine_mixins']),
+        'uzs': ('GenU', ['t_zero_shift']),
         'dcommon': ('GenD', ['t_common', 't_logscale']),
         'dudf': ('GenD', ['t_udf']),
         'dint': ('GenD', ['t_integration']),
